@@ -5,10 +5,11 @@ import GoDcp.Driver.Health
 import GoDcp.Driver.Keys
 import GoDcp.Driver.AsyncOp
 import GoDcp.Driver.Config
+import GoDcp.Driver.Life
 /-! registry of all stateless handlers (one list per slice) -/
 namespace GoDcp.Driver
 
 def allHandlers : List (String × (List String → Option String → Option Out)) :=
-  pureHandlers ++ versionHandlers ++ rollbackHandlers ++ healthHandlers ++ keysHandlers ++ asyncOpHandlers ++ configHandlers
+  pureHandlers ++ versionHandlers ++ rollbackHandlers ++ healthHandlers ++ keysHandlers ++ asyncOpHandlers ++ configHandlers ++ lifeHandlers
 
 end GoDcp.Driver
